@@ -349,7 +349,28 @@ def ast_rules(rep):
                 rep.ok("G4-dispatch", "image operator== tests dimensions then equal_pixels(const_view,const_view)", args)
             else:
                 rep.violation("G4-dispatch", "G4:image::operator==", "include/boost/gil/image.hpp", {"equal_pixels_calls": len(eq)})
+            # G4b: a path that answers `true` without comparing pixels (the identity shortcut &a == &b) is a bitwise notion of equality: sound only where
+            # every pixel equals itself, i.e. for integral channels (NaN != NaN)
+            m = re.search(r"operator==<boost::gil::pixel<\s*((?:[^,<>]|<(?:[^<>]|<[^<>]*>)*>)+),", f.get("full", ""))
+            chan = m.group(1).replace("const ", "").strip() if m else None
+            integral = chan in ("unsigned char", "signed char", "char", "unsigned short", "short", "unsigned int", "int", "unsigned long", "long")
+            trues = []
+            for r_, pth in R.find(f["body"], lambda x: x.get("k") == "Return"):
+                e = R.strip(r_.get("e"))
+                while isinstance(e, dict) and e.get("k") in ("ImplicitCast", "Paren"):
+                    e = R.strip(e.get("e"))
+                if isinstance(e, dict) and (R.key(e) in ("true", "1") or str(e.get("const", "")) in ("1", "true")):
+                    trues.append([("%s %s %s" % (l, op, r)) for op, l, r in R.guards(pth)])
+            if chan is not None:
+                rep.count("obligations:G4b")
+                key = "G4b:image::operator==:%s" % chan
+                if trues and not integral:
+                    rep.violation("G4b-shortcut", key, R.fn_where(f), {"returns true without comparing pixels under": trues[:2], "channel": chan,
+                                                                      "example": "an rgb32f image with one NaN channel: a == a is true, equal_pixels(const_view(a), const_view(a)) and the per-pixel loop are false"})
+                else:
+                    rep.ok("G4b-shortcut", key, {"shortcuts": len(trues), "integral": integral})
     rep.floor("obligations:G4", 4)
+    rep.floor("obligations:G4b", 3)
     # ---- G5 row loops
     rep.rule("G5 transform_pixels / transform_pixel_positions: dstIt[x] = fun(srcIt[x]...) with all iterators row_begin(y) of their own view, 0<=x<width, 0<=y<height of one of the views")
     for f in fns:
